@@ -1333,6 +1333,38 @@ def check_C17(ctx):
             for c, what in bad[:3]:
                 f_ = os.path.join(ctx.work, 'bulk_%s_%d.json' % (name, nw)); json.dump({'instance': c, 'outcome': what, 'workers': nw}, open(f_, 'w'))
                 ctx.violation('%s instance %s on %d workers: %s' % (c['kind'], {k: c[k] for k in ('first', 'last', 'step', 'grain', 'as', 'rs', 'is', 'at')}, nw, what), [f_])
+    # --- index ranges of up to 2^31 - 1 iterations: the chunks handed to the body, compared with BulkHuge.tla
+    rh = tlc_design('BulkHuge', os.path.join(SPEC, 'BulkHuge.cfg'), coverage=False, heap='4g', timeout=1200)
+    if not rh['ok']:
+        raise Infra('BulkHuge: ' + str(rh['violation']) + rh['out'][-800:])
+    ctx.cov['states'] += rh['distinct']; ctx.cov['transitions'] += rh['states']
+    ctx.cov['design_runs'].append({'module': 'BulkHuge', 'cfg': 'BulkHuge.cfg', 'distinct_states': rh['distinct'], 'states_generated': rh['states'], 'wall_s': rh['wall_s'], 'result': 'ok'})
+    huge = []
+    for l in rh['out'].split('\n'):
+        m = re.match(r'<<"HUGE", "(.*)">>$', l.strip())
+        if m:
+            huge.append(json.loads(m.group(1).encode().decode('unicode_escape')))
+    hin = os.path.join(ctx.work, 'huge_in.txt')
+    with open(hin, 'w') as f:
+        for c in huge:
+            f.write('pfh %d %d %d %d 0 0 0 0\n' % (c['first'], c['last'], c['step'], c['grain']))
+    for nw in ((1, 3) if ctx.quick else (1, 2, 3, 8)):
+        rc, out = sh([bins['mtbb'], hin], timeout=600, env={'BULK_NW': str(nw)})
+        seen = set()
+        for l in out.strip().split('\n'):
+            p_ = l.split()
+            if len(p_) < 2 or not p_[0].isdigit():
+                continue
+            c = huge[int(p_[0])]; seen.add(int(p_[0])); nreplayed += 1
+            got = sorted([int(x.split(':')[0]), int(x.split(':')[1])] for x in p_[2:]) if p_[1] == 'OK' else None
+            want = sorted([list(x) for x in c['chunks']])
+            if got != want:
+                f_ = os.path.join(ctx.work, 'huge_%d_%d.json' % (int(p_[0]), nw)); json.dump({'instance': c, 'got': got if got is not None else ' '.join(p_[1:]), 'workers': nw}, open(f_, 'w'))
+                ctx.violation('parallel_for(%d, %d, %d, grain %d) on %d workers: the body received the chunks %s; the index range is tiled exactly once by %s'
+                              % (c['first'], c['last'], c['step'], c['grain'], nw, str(got)[:300], str(want)[:300]), [f_])
+        if len(seen) != len(huge):
+            ctx.violation('parallel_for over huge ranges on %d workers: the harness died after %d of %d cases: %s' % (nw, len(seen), len(huge), out[-300:]), [hin])
+    ctx.log('S->C %d huge-range parallel_for cases compared chunk by chunk' % len(huge))
     # binding self-test: a wrong expectation must be reported as a disagreement
     wrong = [dict(c) for c in cases]
     k = next(i for i, c in enumerate(wrong) if c['kind'] == 'pfor' and len(c['idx']) >= 2)
